@@ -133,6 +133,19 @@ CHECKS["C08"] = dict(
     note="Finite-choice (certified exhaustive within the pools). Selector/field XPath fixed to child/attribute steps; >2 fields outside.",
     ref="DESIGN.md 5/C08")
 
+CHECKS["C14"] = dict(
+    technique=TECH + " - has_occurs_restriction/OccursCalculator on unbounded symbolic integers; XsdGroup.is_restriction on parser-built "
+                     "(base, derived) group pairs with symbolic occurrence classes, soundness judged by language inclusion in the oracle",
+    category="model_checking",
+    text="Occurrence kernel: for ALL integer bounds and counts an accepted occurrence restriction implies range inclusion, and the "
+         "calculator's sum/product equal interval arithmetic (paths exhausted, no value bound). Content models: for each (base, derived) "
+         "pair of the catalogue (same shape, dropped particle, chosen branch, wildcard->element, substitution member, foreign/repeated "
+         "element) and every occurrence-class vector of the derived particles, is_restriction()==True implies that every word up to the "
+         "bound accepted by the derived model is accepted by the base model; XSD 1.0 and 1.1 code paths. Wildcard restriction: see C16.",
+    note="Facet and attribute-use restriction checks run inside schema construction (not executable under the tracer): outside. Known "
+         "finding: unsound acceptances of the (mainly XSD 1.1) group restriction checker, listed per input in known/C14.json.",
+    ref="DESIGN.md 5/C14")
+
 NOT_APPLICABLE = {
     "C18": "quantifies over thread interleavings; no engine of this family here executes Python threads symbolically (CrossHair is "
            "single-threaded); see DESIGN.md section 6",
